@@ -291,12 +291,23 @@ func ruleContainerWrites(w *World, r *Report, e *Engine, rule string, include fu
 	f := &freshness{w: w, retSum: map[*ssa.Function]int{}, phiBusy: map[*ssa.Phi]bool{}, fieldBusy: map[string]bool{}}
 	aud := &Audit{w: w, e: e}
 	callFn := w.Fn("lib/call", "call")
+	// the registration routine and the unexported functions of its package it is built from, provided the
+	// evaluator cannot reach them (C02.reg decides that for each of them)
+	regFns := map[*ssa.Function]bool{}
+	if callFn != nil {
+		reach := w.reachableFrom(append(evalEntries(w), w.registeredFuncs()...))
+		for _, f := range w.withPkgHelpers(callFn) {
+			if !reach[f] {
+				regFns[f] = true
+			}
+		}
+	}
 	nWrites := 0
 	for _, fn := range w.Funcs {
 		if isTestFunc(w, fn) || !include(fn) {
 			continue
 		}
-		inReg := callFn != nil && (fn == callFn || fn.Parent() == callFn)
+		inReg := regFns[fn] || (fn.Parent() != nil && regFns[fn.Parent()])
 		for _, b := range fn.Blocks {
 			for _, in := range b.Instrs {
 				var base ssa.Value
@@ -489,12 +500,24 @@ func checkRegUnreachable(w *World, r *Report) {
 		roots = append(roots, w.Fn("", n))
 	}
 	reach := w.reachableFrom(roots)
+	var regFns []*ssa.Function
 	for _, name := range []string{"Call", "CallOverrideFN", "call"} {
 		fn := w.Fn("lib/call", name)
 		if fn == nil {
 			r.undecided("C02.reg", nil, "lib/call."+name, token.NoPos, "function no longer resolves")
 			continue
 		}
+		regFns = append(regFns, fn)
+	}
+	// the functions the registration routine is built from and that update the registry
+	if callFn := w.Fn("lib/call", "call"); callFn != nil {
+		for _, f := range w.withPkgHelpers(callFn) {
+			if f != callFn && updatesRegistry(f) {
+				regFns = append(regFns, f)
+			}
+		}
+	}
+	for _, fn := range regFns {
 		if reach[fn] {
 			r.bad("C02.reg", fn, "reachable from evaluation", fn.Pos(), "a builtin or the evaluator can register builtins at run time: the in-place registry update would mutate a published value")
 		} else {
@@ -816,4 +839,19 @@ func paramEscapes(p *ssa.Parameter, seen map[*ssa.Function]bool, depth int) bool
 		return false
 	}
 	return esc(p, 0)
+}
+
+
+// updatesRegistry: f (or a closure in it) calls the environment's Update method (the registry update).
+func updatesRegistry(f *ssa.Function) bool {
+	for _, g := range append([]*ssa.Function{f}, allAnon(f)...) {
+		for _, b := range g.Blocks {
+			for _, in := range b.Instrs {
+				if ci, ok := in.(ssa.CallInstruction); ok && ci.Common().IsInvoke() && ci.Common().Method.Name() == "Update" {
+					return true
+				}
+			}
+		}
+	}
+	return false
 }
